@@ -68,7 +68,7 @@ class HashMap:
                 raise DictError('Key sizes must be the same.')
             key = int.from_bytes(key, 'big', signed=False)
         elif isinstance(key, str):
-            if len(key) > self.size:
+            if len(key) > self.size or key.strip('01'):  # int(key, 2) would also take a sign, a '0b' prefix, '_' and white space
                 raise DictError('Key sizes must be the same.')
             key = int(key, 2)
         elif isinstance(key, Address):
